@@ -1091,15 +1091,13 @@ Proof.
   - apply IH; auto. intros; apply Hi; simpl; auto.
 Qed.
 
-Theorem dict_roundtrip_id : forall q s sd vt b, wf s = true -> valid s sd = true -> vt <> VT_dna ->
-  ids_unique s -> (vt = VT_literal -> Forall lits_distinct (all_lits s)) ->
-  bind q s (normalize sd) = Some b ->
-  from_dict (ial_of vt) q s (to_dict (decision_points s) KT_id vt MC_subchoice false b) = Some b.
+Theorem to_dict_reports : forall q s sd vt b, wf s = true -> valid s sd = true -> vt <> VT_dna ->
+  ids_unique s -> bind q s (normalize sd) = Some b ->
+  carry (decision_points s) vt (to_dict (decision_points s) KT_id vt MC_subchoice false b) (acts s [] sd).
 Proof.
-  intros q s sd vt b Hwf Hv Hvt Hid Hl Hb.
+  intros q s sd vt b Hwf Hv Hvt Hid Hb.
   rewrite (to_dict_acts q s sd vt b Hwf Hv Hvt Hb).
   set (infos := decision_points s). set (L := acts s [] sd).
-  (* every active decision is stored under the id of its decision point *)
   assert (Hk : forall e, In e L -> exists i, info_at infos (fst e) = Some i /\ In i infos /\ i_addr i = fst e /\
                                    (forall c, snd e = AChoice c -> exists n lits, i_kind i = PKChoice n lits)).
   { intros e He. apply (proj1 (acts_kinded_both infos) s Hwf sd [] [] e Hv (root_agree s) He). }
@@ -1115,13 +1113,21 @@ Proof.
     intros x y Hx Hy E. destruct (Hk _ Hx) as (ix & Hix & Hinx & Hax & _). destruct (Hk _ Hy) as (iy & Hiy & Hiny & Hay & _).
     unfold key1 in E. rewrite Hix, Hiy in E. inv E.
     rewrite <- Hax, <- Hay. f_equal. eapply (NoDup_map_inj _ _ i_id infos); eauto. }
-  assert (Hcarry : carry infos vt (puts infos KT_id vt L []) L).
-  { intros e He. rewrite Hfold by auto.
-    apply (puts_distinct (map (fun e0 => (key1 infos e0, leaf1 infos vt e0)) L) []
-             ltac:(rewrite map_map; exact Hnd) ltac:(intros; reflexivity) (key1 infos e, leaf1 infos vt e)).
-    apply in_map_iff. exists e. auto. }
+  intros e He. rewrite Hfold by auto.
+  apply (puts_distinct (map (fun e0 => (key1 infos e0, leaf1 infos vt e0)) L) []
+           ltac:(rewrite map_map; exact Hnd) ltac:(intros; reflexivity) (key1 infos e, leaf1 infos vt e)).
+  apply in_map_iff. exists e. auto.
+Qed.
+
+Theorem dict_roundtrip_id : forall q s sd vt b, wf s = true -> valid s sd = true -> vt <> VT_dna ->
+  ids_unique s -> (vt = VT_literal -> Forall lits_distinct (all_lits s)) ->
+  bind q s (normalize sd) = Some b ->
+  from_dict (ial_of vt) q s (to_dict (decision_points s) KT_id vt MC_subchoice false b) = Some b.
+Proof.
+  intros q s sd vt b Hwf Hv Hvt Hid Hl Hb.
+  pose proof (to_dict_reports q s sd vt b Hwf Hv Hvt Hid Hb) as Hcarry.
   unfold from_dict.
-  rewrite (proj1 (readback_both infos vt Hvt) s Hwf sd [] [] _ Hv (root_agree s) Hcarry Hl).
+  rewrite (proj1 (readback_both (decision_points s) vt Hvt) s Hwf sd [] [] _ Hv (root_agree s) Hcarry Hl).
   exact Hb.
 Qed.
 
